@@ -12,6 +12,7 @@ SHOP = 'urn:vk:shop'
 EXT = 'urn:vk:ext'
 TREE = 'urn:vk:tree'
 CTX = 'urn:vk:ctx'
+POLY = 'urn:vk:poly'
 
 
 class N:
@@ -171,6 +172,7 @@ SHOP_XSD = f'''<?xml version="1.0" encoding="UTF-8"?>
     <xs:key name="skuKey"><xs:selector xpath="s:product"/><xs:field xpath="@sku"/></xs:key>
     <xs:keyref name="lineRef" refer="s:skuKey"><xs:selector xpath="s:order/s:line"/><xs:field xpath="@ref"/></xs:keyref>
     <xs:unique name="oidUnique"><xs:selector xpath="s:order"/><xs:field xpath="@oid"/></xs:unique>
+    <xs:unique name="vatUnique"><xs:selector xpath="s:order/s:buyer/s:vat"/><xs:field xpath="."/></xs:unique>
   </xs:element>
 </xs:schema>
 '''
@@ -236,8 +238,40 @@ CTX_XSD = f'''<?xml version="1.0" encoding="UTF-8"?>
 </xs:schema>
 '''
 
+POLY_XSD = f'''<?xml version="1.0" encoding="UTF-8"?>
+<xs:schema xmlns:xs="{XS}" targetNamespace="{POLY}" xmlns:p="{POLY}" elementFormDefault="qualified">
+  <xs:complexType name="Base">
+    <xs:sequence><xs:element name="title" type="xs:string"/></xs:sequence>
+  </xs:complexType>
+  <xs:complexType name="Ext">
+    <xs:complexContent><xs:extension base="p:Base">
+      <xs:sequence>
+        <xs:element name="entry" maxOccurs="unbounded">
+          <xs:complexType><xs:attribute name="id" type="xs:int" use="required"/></xs:complexType>
+        </xs:element>
+        <xs:element name="use" minOccurs="0" maxOccurs="unbounded">
+          <xs:complexType><xs:attribute name="ref" type="xs:int" use="required"/></xs:complexType>
+        </xs:element>
+      </xs:sequence>
+    </xs:extension></xs:complexContent>
+  </xs:complexType>
+  <xs:element name="poly">
+    <xs:complexType>
+      <xs:sequence>
+        <xs:element name="part" type="p:Base" maxOccurs="unbounded">
+          <xs:key name="entryKey"><xs:selector xpath="p:entry"/><xs:field xpath="@id"/></xs:key>
+          <xs:keyref name="useRef" refer="p:entryKey"><xs:selector xpath="p:use"/><xs:field xpath="@ref"/></xs:keyref>
+        </xs:element>
+      </xs:sequence>
+    </xs:complexType>
+  </xs:element>
+</xs:schema>
+'''
+
 FAMILIES = {'shop': SHOP_XSD, 'tree': TREE_XSD, 'ctx': CTX_XSD}
-FAMILY_NS = {'shop': SHOP, 'tree': TREE, 'ctx': CTX}
+FAMILY_NS = {'shop': SHOP, 'tree': TREE, 'ctx': CTX, 'poly': POLY}
+# families with special purposes (not part of the shared rotation): xsi:type-dependent identity constraints
+EXTRA_FAMILIES = {'poly': POLY_XSD}
 
 
 def _sku(i):
@@ -294,7 +328,7 @@ def gen_shop(rng, nprod=None, nord=None):
             buyer.children.append(N(S, 'email', text='a@example.org'))
         if rng.random() < 0.4:
             buyer.attrs.append((XSI, 'type', 's:Company'))
-            buyer.children.append(N(S, 'vat', text='IT123'))
+            buyer.children.append(N(S, 'vat', text=f'IT{100 + j}'))
             buyer.meta['xsi_type'] = True
             buyer.meta['required_children'] = ['name', 'vat']
             if rng.random() < 0.5:
@@ -394,7 +428,32 @@ def gen_ctx(rng):
     return root
 
 
-GENERATORS = {'shop': gen_shop, 'tree': gen_tree, 'ctx': gen_ctx}
+def gen_poly(rng, fault=None):
+    """Parts typed through xsi:type="p:Ext" whose children carry a key and a keyref declared on `part`.
+    fault: None | 'dup_key' | 'dangling_keyref' (reported only if the identity selectors were widened)."""
+    P = POLY
+    root = N(P, 'poly', meta={'elem_only': True})
+    nparts = rng.randint(1, 3)
+    for i in range(nparts):
+        part = N(P, 'part', meta={'elem_only': True})
+        part.children.append(N(P, 'title', text=f'part {i}'))
+        if rng.random() < 0.8 or fault:
+            part.attrs.append((XSI, 'type', 'p:Ext'))
+            part.meta['xsi_type'] = True
+            ids = rng.sample(range(1, 30), rng.randint(1, 4))
+            for k in ids:
+                part.children.append(N(P, 'entry', [('', 'id', str(k))]))
+            for _ in range(rng.randint(0, 3)):
+                part.children.append(N(P, 'use', [('', 'ref', rng.choice(('%d', '0%d', '+%d')) % rng.choice(ids))]))
+            if fault == 'dup_key' and i == 0:
+                part.children.insert(2, N(P, 'entry', [('', 'id', '0%d' % ids[0])]))
+            if fault == 'dangling_keyref' and i == 0:
+                part.children.append(N(P, 'use', [('', 'ref', '99')]))
+        root.children.append(part)
+    return root
+
+
+GENERATORS = {'shop': gen_shop, 'tree': gen_tree, 'ctx': gen_ctx, 'poly': gen_poly}
 
 
 # ---------------------------------------------------------------------------------------------
@@ -502,15 +561,26 @@ def identity_fault(root, family, kind, rng):
         b1.attrs = [(a[0], a[1], pid) if a[1] == 'pid' else a for a in b1.attrs]
         orders[1].attrs = [a for a in orders[1].attrs if a[1] != 'contact']
         return r, 'duplicate ID'
+    if kind == 'dup_vat' and len(orders) >= 2:
+        # unique on a child that exists only through xsi:type="s:Company"
+        for o in orders[:2]:
+            b = o.children[0]
+            b.attrs = [a for a in b.attrs if not (a[0] == XSI and a[1] == 'type')] + [(XSI, 'type', 's:Company')]
+            b.children = [c for c in b.children if c.name != 'vat'] + [N(SHOP, 'vat', text='IT777')]
+            b.meta['xsi_type'] = True
+        return r, 'duplicate vat under xsi:type'
     return None
 
 
 IDENTITY_FAULTS = ('dup_key', 'dangling_keyref', 'dup_unique', 'dangling_idref', 'dup_id')
+# not in the shared list: the library does not collect fields of children that exist only through
+# xsi:type when the selector has several steps (see C08 / C10), so this fault is silent there
+SPECIAL_IDENTITY_FAULTS = ('dup_vat',)
 
 
 def default_prefixes(family, rng=None):
     ns = FAMILY_NS[family]
-    base = {'shop': 's', 'tree': 't', 'ctx': 'c'}[family]
+    base = {'shop': 's', 'tree': 't', 'ctx': 'c', 'poly': 'p'}[family]
     if rng is None:
         return {ns: base, EXT: 'e'}
     return {ns: rng.choice((base, '', 'q')), EXT: 'e'}
@@ -522,4 +592,6 @@ def render_doc(root, family, rng=None, prefixes=None):
     extra = ''
     if family == 'shop' and prefixes.get(SHOP) != 's':
         extra = f' xmlns:s="{SHOP}"'
+    if family == 'poly' and prefixes.get(POLY) != 'p':
+        extra = f' xmlns:p="{POLY}"'
     return render(root, prefixes, extra_root_attrs=extra)
